@@ -7,3 +7,6 @@ mkdir -p build evidence replays
 [ -f driver/Cargo.lock ] || cp /repo/Cargo.lock driver/Cargo.lock
 (cd driver && RUSTFLAGS="--cfg affinitree_verif" CARGO_TARGET_DIR=/verif/build/driver cargo build --offline --quiet)
 echo "setup ok"
+[ -f lifted/Cargo.lock ] || cp /repo/Cargo.lock lifted/Cargo.lock
+(cd lifted && CARGO_TARGET_DIR=/verif/build/lifted cargo build --offline --quiet)
+echo "setup L ok"
